@@ -100,6 +100,16 @@ type muxWorld struct {
 	maxUnit   int
 	table     []string
 	diverged  string
+	wire      map[string]map[uint32][]muxWireFrame // frames each endpoint put on the wire, per stream id, in wire order
+	wireErr   string
+	sendFail  map[string]map[int]bool // streams on which the model has a failed send (a number may be skipped)
+}
+
+type muxWireFrame struct {
+	Seq     uint64
+	Closing uint8
+	Len     int
+	Conn    int
 }
 
 var muxSide = map[string]int{"c": 0, "s": 1}
@@ -151,6 +161,25 @@ func muxNewWorld(conc muxConc) (*muxWorld, error) {
 		w.sesh[e] = MakeSession(uint32(7), cfg)
 	}
 	w.maxUnit = w.sesh["c"].maxStreamUnitWrite
+	w.wire = map[string]map[uint32][]muxWireFrame{"c": {}, "s": {}}
+	w.sendFail = map[string]map[int]bool{"c": {}, "s": {}}
+	// passive tap: every record accepted by the network is decoded with the session key, in wire order
+	w.vn.Tap = func(ev kit.TapEvent) {
+		if ev.Kind != "w" || len(ev.Data) < 5 {
+			return
+		}
+		e := "c"
+		if ev.From == 1 {
+			e = "s"
+		}
+		var f Frame
+		body := append([]byte(nil), ev.Data[5:]...)
+		if err := w.sesh[e].deobfuscate(&f, body); err != nil {
+			w.wireErr = fmt.Sprintf("a record written by %s on connection %d does not decode under the session key: %v", e, ev.Link+1, err)
+			return
+		}
+		w.wire[e][f.StreamID] = append(w.wire[e][f.StreamID], muxWireFrame{Seq: f.Seq, Closing: f.Closing, Len: len(f.Payload), Conn: ev.Link + 1})
+	}
 	for c := 0; c < conc.NC; c++ {
 		l := w.vn.NewLink(true, false)
 		w.links = append(w.links, l)
@@ -280,7 +309,55 @@ func muxRun(b *muxBehaviour, conc muxConc) (v muxVerdict, table []string, diverg
 			}
 		}
 	}
+	if vv := w.checkWire(); vv.Key != "" {
+		return vv, w.table, ""
+	}
 	return muxVerdict{}, w.table, ""
+}
+
+// C13 on the real bytes: per stream and direction the numbers on the wire are 0,1,2,... each used once
+// (one may be skipped after a failed send), data frames carry the units in write order, and nothing
+// follows the closing frame.
+func (w *muxWorld) checkWire() muxVerdict {
+	if w.wireErr != "" {
+		return muxVerdict{"wire-undecodable", w.wireErr}
+	}
+	for _, e := range []string{"c", "s"} {
+		for sid, frames := range w.wire[e] {
+			if sid == 0xffffffff {
+				continue
+			}
+			seen := map[uint64]bool{}
+			next := uint64(0)
+			unit := 0
+			closed := false
+			for k, f := range frames {
+				if seen[f.Seq] {
+					return muxVerdict{"seq-duplicate", fmt.Sprintf("%s put sequence number %d of stream %d on the wire twice (frame %d): the nonce (stream id, seq) is reused", e, f.Seq, sid, k)}
+				}
+				seen[f.Seq] = true
+				if closed {
+					return muxVerdict{"close-not-last", fmt.Sprintf("%s sent frame seq %d of stream %d after the stream's closing frame", e, f.Seq, sid)}
+				}
+				if f.Seq < next {
+					return muxVerdict{"seq-order", fmt.Sprintf("%s sent seq %d of stream %d after seq %d", e, f.Seq, sid, next-1)}
+				}
+				if f.Seq > next && !w.sendFail[e][int(sid)] {
+					return muxVerdict{"seq-gap", fmt.Sprintf("%s skipped sequence number(s) %d..%d of stream %d without a failed send", e, next, f.Seq-1, sid)}
+				}
+				next = f.Seq + 1
+				if f.Closing == closingStream {
+					closed = true
+					continue
+				}
+				unit++
+				if sizes := w.unitSizes[e][int(sid)]; unit <= len(sizes) && sizes[unit-1] != f.Len {
+					return muxVerdict{"seq-order", fmt.Sprintf("%s: frame seq %d of stream %d carries %d bytes, unit %d written has %d", e, f.Seq, sid, f.Len, unit, sizes[unit-1])}
+				}
+			}
+		}
+	}
+	return muxVerdict{}
 }
 
 func muxInternal(a string, steps []muxStep, j int) bool {
@@ -321,6 +398,9 @@ func (w *muxWorld) step(steps []muxStep, i int) muxVerdict {
 			return muxVerdict{"call-blocked", fmt.Sprintf("step %d: Stream.Close on %s/%d did not return", i, ev.E, ev.S)}
 		}
 		w.logf("step %d CloseStream(%s,%d) expected ok=%v observed err=%v", i, ev.E, ev.S, ev.Ok, call.err)
+		if !ev.Ok && ev.C > 0 {
+			w.sendFail[ev.E][ev.S] = true
+		}
 		if ev.Ok && call.err != nil {
 			w.diverged = fmt.Sprintf("step %d: Stream.Close failed (%v) where the model succeeds", i, call.err)
 		}
@@ -457,6 +537,9 @@ func (w *muxWorld) doWrite(steps []muxStep, i int) muxVerdict {
 		}
 	}
 	w.unitSizes[ev.E][ev.S] = append(w.unitSizes[ev.E][ev.S], sizes[:sent]...)
+	if !ok && ev.C > 0 {
+		w.sendFail[ev.E][ev.S] = true
+	}
 	if ok && call.err != nil {
 		if errors.Is(call.err, ErrBrokenStream) || errors.Is(call.err, errBrokenSwitchboard) {
 			return muxVerdict{"write-refused", fmt.Sprintf("step %d: Write on an open stream of a healthy session failed: %v", i, call.err)}
